@@ -11,6 +11,7 @@ pub mod c04;
 pub mod c05;
 #[cfg(not(feature = "slim"))]
 pub mod c07;
+pub mod c08;
 #[cfg(not(feature = "slim"))]
 pub mod c09;
 #[cfg(not(feature = "slim"))]
@@ -65,6 +66,7 @@ pub fn run(prop: &str, tier: Tier) -> Report {
         "C14" => c14::run(tier),
         #[cfg(not(feature = "slim"))]
         "C15" => c15::run(tier),
+        "C08" => c08::run(tier),
         "C16" => c16::run(tier),
         #[cfg(not(feature = "slim"))]
         "C17" => c17::run(tier),
@@ -110,6 +112,7 @@ pub fn replay(prop: &str, _tier: Tier, case: &serde_json::Value) -> Vec<Violatio
         "C14" => c14::replay(case),
         #[cfg(not(feature = "slim"))]
         "C15" => c15::replay(case),
+        "C08" => c08::replay(case),
         "C16" => c16::replay(case),
         #[cfg(not(feature = "slim"))]
         "C17" => c17::replay(case),
@@ -133,6 +136,7 @@ pub fn worker(prop: &str, tier: Tier, args: &[String]) -> i32 {
         "C04" => crate::pool::child(&c04::C04, tier, args),
         #[cfg(not(feature = "slim"))]
         "C12" => crate::pool::child(&c12::C12, tier, args),
+        "C08" => crate::pool::child(&c08::C08, tier, args),
         "C16" => crate::pool::child(&c16::C16, tier, args),
         #[cfg(not(feature = "slim"))]
         "C18" => crate::pool::child(&c18::C18, tier, args),
